@@ -58,6 +58,8 @@ def _mkvar(rng, name, vd, dl, vi, masked):
         for k in rng.sample(range(size), rng.randint(0, max(1, size // 3))):
             data[k] = None
     attrs = rng.sample(['units', 'long_name', 'var_desc', 'note'], rng.randint(0, 3))
+    if rng.random() < 0.12:
+        attrs.append('trace')           # a legal attribute name that is also the name of a method of numpy arrays
     if masked:
         attrs.append('fill_value')      # set by createVariable(fill_value=...)
     out = dict(name=name, dims=list(vd), dtype=rng.choice(DTYPES), masked=masked, attrs=attrs, data=data)
@@ -143,7 +145,9 @@ def observe(f, with_unlim=True, spec=None):
         cells = ['_' if (m or (isinstance(x, float) and x != x)) else lib.show_rat(x)
                  for x, m in zip(vals.tolist(), mask.tolist())]   # NaN cells are shown like masked cells
         shape = 'x'.join(str(s) for s in np.shape(arr)) or '-'
-        attrs = sorted(a for a in v.ncattrs() if not (k in nofill and a == 'fill_value'))
+        # an attribute that is listed but comes back as a method of the array (its name is a method's) is not the attribute
+        attrs = sorted((a + '!method' if callable(getattr(v, a, None)) else a)
+                       for a in v.ncattrs() if not (k in nofill and a == 'fill_value'))
         vs.append('%s|%s|%s|%s|%s|%s' % (k, '.'.join(v.dimensions) or '-', 'm' if '_' in cells else 'p',
                                         '.'.join(attrs) or '-', shape, lib.show_list(cells)))
     return 'dims=%s vars=%s attrs=%s' % (lib.show_list(ds), ';'.join(vs) or '-', '.'.join(sorted(f.ncattrs())) or '-')
